@@ -650,6 +650,7 @@ func runStress(p StressParams, scratch string, idx int) *StressResult {
 	case <-time.After(120 * time.Second):
 		close(stopExtras)
 		time.Sleep(50 * time.Millisecond)
+		atomic.StoreInt32(&eng.Tainted, 1)
 		res.Inconc = "watchdog: stress run did not finish in 120s"
 		q, gs := eng.Quiescent(300 * time.Millisecond)
 		if q {
